@@ -1,14 +1,18 @@
 package parser
 
 import (
+	"go/ast"
 	"go/token"
 	"go/types"
+	"strconv"
+	"strings"
 	"unicode"
 
 	gonanoid "github.com/matoous/go-nanoid"
 	"github.com/reedom/convergen/pkg/logger"
 	"github.com/reedom/convergen/pkg/option"
 	"github.com/reedom/convergen/pkg/util"
+	"golang.org/x/tools/go/packages"
 )
 
 const intfName = "Convergen"
@@ -46,6 +50,10 @@ func (p *Parser) findConvergenEntries() ([]*intfEntry, error) {
 
 		logger.Printf("%v: target interface found: %v", p.fset.Position(obj.Pos()), obj.Name())
 
+		if err := p.typeErrorIn(obj); err != nil {
+			return nil, err
+		}
+
 		notations := util.ExtractMatchComments(docComment, reNotation)
 		if docComment != nil {
 			docComment.List = nil
@@ -72,6 +80,39 @@ func (p *Parser) findConvergenEntries() ([]*intfEntry, error) {
 	}
 
 	return entries, nil
+}
+
+// typeErrorIn reports a type error the loader found inside the declaration of the
+// given converter interface (a duplicate or blank method, an unknown or cyclic embedded
+// interface). go/types leaves such methods out of the interface: generating from it
+// would report success while silently dropping them.
+func (p *Parser) typeErrorIn(intf types.Object) error {
+	nodes, _ := util.ToAstNode(p.file, intf)
+	for _, node := range nodes {
+		decl, ok := node.(*ast.GenDecl)
+		if !ok {
+			continue
+		}
+		from, to := p.fset.Position(decl.Pos()), p.fset.Position(decl.End())
+		for _, e := range p.pkg.Errors {
+			if e.Kind != packages.TypeError {
+				continue
+			}
+			var file string
+			var line int
+			// e.Pos is "file:line:col".
+			parts := strings.Split(e.Pos, ":")
+			if len(parts) < 3 {
+				continue
+			}
+			file = strings.Join(parts[:len(parts)-2], ":")
+			line, _ = strconv.Atoi(parts[len(parts)-2])
+			if file == from.Filename && from.Line <= line && line <= to.Line {
+				return logger.Errorf("%v: %v", e.Pos, e.Msg)
+			}
+		}
+	}
+	return nil
 }
 
 // isValidIdentifier checks if the given string is a valid identifier.
